@@ -154,6 +154,12 @@ func (*TargetPointer) Build(gen Generator, ctx *MethodContext, sourceID *xtype.J
 		})
 	}
 
+	if id == sourceID && !id.Owned {
+		// nothing was converted (skipCopySameType): the address of the
+		// source expression would point into the source, take a copy.
+		id = xtype.OtherID(id.Code)
+	}
+
 	pstmt, nextID := id.Pointer(target.PointerInner, ctx.Name)
 	stmt = append(stmt, pstmt...)
 
